@@ -77,6 +77,9 @@ def retest():
     for r in rows:
         last[(r["file"], r["orig"], r["mutation"])] = r
     todo = [r for r in last.values() if not r["caught_by"]]
+    if os.environ.get("MUT_FILES"):
+        keep = set(os.environ["MUT_FILES"].split(","))
+        todo = [r for r in todo if r["file"] in keep]
     wt = "/tmp/mut-%d" % os.getpid()
     subprocess.run(["git", "-C", "/repo", "worktree", "prune"])
     subprocess.run(["git", "-C", "/repo", "worktree", "add", "-q", "--detach", wt, "HEAD"], check=True)
